@@ -74,3 +74,10 @@ package classdef
 //@     invariant startGlyphID <= j && j <= max(endGlyphID + 1, startGlyphID) && endGlyphID <= 65535 && res != nil && fresh(res) && classValue != 0 && 0 <= i && i < classRangeCount
 //@     invariant forall g uint16 :: has(res, g) ==> res[g] != 0
 //@     decreases endGlyphID + 1 - j
+
+// NumClasses: one more than the largest class used (class 0 always exists).
+//@ func (info Table) NumClasses() (n int)   props: C02 C07 C18
+//@   ensures 1 <= n && n <= 65536 && forall g uint16 :: has(info, g) ==> info[g] < n
+//@   modifies nothing
+//@   loop 0
+//@     invariant forall g uint16 :: seen(info, g) ==> info[g] <= maxClass
